@@ -9,6 +9,7 @@ package sftp
 
 import (
 	"bytes"
+	"io"
 	"math/rand"
 	"os"
 	"path/filepath"
@@ -57,6 +58,11 @@ func runLinHistory(t testing.TB, tr *tracer, backend string, bs int, G, R int, s
 	}
 	sess := newSrvSession(t, tr, so)
 	sess.s2c.onWrite = nil
+	if seed%3 == 0 {
+		// a slow transport: every Write of the client takes a moment, which stretches the gap between the header and the
+		// payload of a WRITE packet and lets the requests of other goroutines queue up behind the connection's mutex
+		sess.c2s.afterWrite = func(b []byte) { time.Sleep(15 * time.Microsecond) }
+	}
 	if sess.v != nil {
 		sess.v.addFile("/f", content)
 		// perturb the schedule of the server's worker pool
@@ -161,13 +167,28 @@ func runLinHistory(t testing.TB, tr *tracer, backend string, bs int, G, R int, s
 			}
 		}(g, ops)
 	}
-	wg.Wait()
+	all := make(chan struct{})
+	go func() { wg.Wait(); close(all) }()
+	select {
+	case <-all:
+	case <-time.After(20 * time.Second):
+		// an operation that never returns cannot be linearized: the search stops at this line
+		tr.emit("LHang", kv{"after_s": 20})
+		linHangs++
+		sess.conn.Close()
+		sess.c2s.CloseRead()
+		sess.s2c.CloseWrite(io.ErrClosedPipe)
+		return
+	}
 	for _, f := range files {
 		f.Close()
 	}
 	cl.Close()
 	sess.waitServe(5 * time.Second)
 }
+
+// linHangs counts histories with an operation that did not return; after three the sweep stops (each costs a watchdog period).
+var linHangs int
 
 func TestVerif_Lin(t *testing.T) {
 	tr := newTracer(t)
@@ -185,6 +206,9 @@ func TestVerif_Lin(t *testing.T) {
 		}
 		G := 2 + r.Intn(3)
 		R := 3 + r.Intn(3)
+		if linHangs >= 3 {
+			break
+		}
 		runLinHistory(t, tr, be, bs, G, R, vSeed()*1009+int64(i))
 	}
 }
